@@ -190,6 +190,14 @@ func c14Alphabet() c14Alpha {
 	format := []string{"\u200b", "\ufeff", "\u180e", "\u00ad", "\u2060"}
 	a.Content = []string{"a", "Z", "7", "-", ".", "'", "\"", "\\", "/", "*", "%", "(", "`", "#", "!", "\u00e9", "\u65e5",
 		"\u0301", "\U0001F600", "\ufffd"}
+	// runes that alias a significant ASCII byte when a code point is narrowed (low byte, low seven bits): letters such as
+	// U+013C (low byte '<'), U+4E3B (low byte ';'), U+00BC (low seven bits '<') are ordinary content
+	for _, b := range []rune{'<', '>', '|', '&', ';', '$', 0x00, 0x09, 0x0a, 0x0d, 0x1b, 0x20, 0x7f} {
+		a.Content = append(a.Content, string(rune(0x100)+b), string(rune(0x4e00)+b))
+	}
+	for _, b := range []rune{'<', '>', '|', '&', ';', '$'} {
+		a.Content = append(a.Content, string(rune(0x80)+b))
+	}
 	a.Invalid = []string{"\x80", "\xbf", "\xc0", "\xc3", "\xe2\x82", "\xed\xa0\x80", "\xf8", "\xff",
 		"\xc0\xaf", "\xf0\x9f\x98", "\xf4\x90\x80\x80"}
 	a.CtrlSpace = append(append([]string{}, ctrl...), space...)
@@ -640,7 +648,11 @@ func c14NoNUL(s string) string { return strings.ReplaceAll(s, "\x00", "\x01") }
 
 func c14CLIArg(r *rand.Rand, a c14Alpha, k int) string {
 	word := func() string { return vlib.Word(r, nil) }
-	switch k % 8 {
+	switch k % 9 {
+	case 8: // a query wrapped in a pair of quote characters (as a shell that does not strip them passes it), blanks inside the quotes
+		qc := c14Pick(r, []string{"'", "\"", "`"})
+		inner := c14Pick(r, []string{"", " ", "  ", "\t"}) + c14Pick(r, []string{"", word(), word() + " " + word(), word() + "  " + word()}) + c14Pick(r, []string{"", " ", "  "})
+		return qc + inner + qc
 	case 0: // words with hostile whitespace / control characters between and around them
 		var b strings.Builder
 		for i, n := 0, 1+r.Intn(3); i < n; i++ {
